@@ -17,6 +17,8 @@ func main() {
 		cmdNames(os.Args[2:])
 	case "verify":
 		cmdVerify(os.Args[2:])
+	case "sweepdet":
+		cmdSweepDet(os.Args[2:])
 	case "check":
 		cmdCheck(os.Args[2:])
 	case "replay":
